@@ -17,6 +17,24 @@ func specC09(tier string) *SeqSpec {
 		s.Depth = 8
 		s.Alphabet = append(s.Alphabet, c("BLMOVE", "e", "l1", "LEFT", "RIGHT", "0.5"), cs(1, "DEL", "k"))
 	}
+	// time passes while the transaction is open: what a queued command does is decided when EXEC runs it
+	// (lifetimes count from EXEC, a key that expires in between is missing for the queued commands)
+	s.TTL = true
+	wait := func(ms int64) Op { return Op{Sess: 1, Args: []string{"PING"}, Advance: ms} }
+	for _, q := range [][]Op{
+		{c("SET", "k", "v", "PX", "1000"), wait(1300), c("EXEC"), c("GET", "k"), c("PTTL", "k")},
+		{c("SET", "k", "v"), c("PEXPIRE", "k", "1000"), c("GET", "k"), wait(1300), c("EXEC"), c("PTTL", "k")},
+		{c("SETEX", "k", "2", "v"), c("GETEX", "k", "PX", "500"), wait(5000), c("EXEC"), c("GET", "k"), wait(400), c("GET", "k"), wait(200), c("GET", "k")},
+		{c("EXPIRE", "l1", "1"), c("RPUSH", "l1", "y"), wait(1500), c("EXEC"), c("LRANGE", "l1", "0", "-1"), c("PTTL", "l1")},
+		{c("GET", "tmp"), c("INCR", "tmp"), wait(600), c("EXEC"), c("GET", "tmp")},
+		{c("BLPOP", "e", "0.2"), c("PSETEX", "k", "300", "w"), wait(250), c("EXEC"), wait(100), c("GET", "k"), wait(250), c("GET", "k")},
+	} {
+		seq := append([]Op{cs(1, "SET", "tmp", "1", "PX", "500"), c("MULTI")}, q...)
+		o := seq[0]
+		o.Then = seq[1:]
+		s.InitSweep = append(s.InitSweep, o)
+	}
+	s.Keys = append(s.Keys, "tmp")
 	return s
 }
 
